@@ -111,6 +111,14 @@ Fixpoint apply_moves (blank : nat) (tp : list esym) (i : nat) (mv : list mmove)
                         (fun p => apply_moves blank (fst p) (snd p) r)
   end.
 
+(* ---------- the simulation relation ----------
+   segment i spells tape i, with the head marker right after the scanned cell *)
+Definition enc_tape (t : tape) : list esym :=
+  map Sym (firstn (S (t_pos t)) (t_cells t)) ++ Head :: map Sym (skipn (S (t_pos t)) (t_cells t)) ++ [Sep].
+Definition encode (ts : list tape) : list esym := flat_map enc_tape ts.
+Definition encodes (ext : list esym) (ts : list tape) : Prop :=
+  ext = encode ts /\ Forall (fun t => t_pos t < length (t_cells t)) ts.
+
 (* ---------- the BFS ---------- *)
 (* queue entries (state, tape, position) *)
 Definition ecfg := (nat * list esym * nat)%type.
